@@ -44,7 +44,9 @@ import CpModel.Gen.C06Tables
   failsafe, collapses an iterator body), `tools.autovary`, failsafe hooks in `HookMap.run`,
   XML-RPC responses (`xmlrpcutil._set_response` for results and faults), a custom `request.error_response`.
   Two behaviours are read from the live code into `Gen.C06` flags so that the model follows a repair:
-  `encodeStreamKeepsCL` (finding C06-F1) and `xmlrpcCountsChars` (finding C06-F2).
+  `encodeStreamKeepsCL` (finding C06-F1) and `xmlrpcCountsChars` (finding C06-F2); a third flag,
+  `nextRefusesNonBytes`, says whether `AppResponse.__next__` answers a non-bytes body item with a TypeError
+  (then the exception trapper treats it like a failing producer: bare 500 before the first byte, abort after).
 -/
 namespace CpModel.Finalize
 
@@ -121,6 +123,11 @@ def deliver : List Chunk → Bytes × End
   | .text _ :: _ => ([], .nonBytes)
   | .nested _ :: _ => ([], .nonBytes)
   | .raise :: _ => ([], .raised)
+
+/-- how the end of the iteration reaches the server: `AppResponse.__next__` turns a non-bytes item into a
+    TypeError (flag read from the live code), i.e. into a failure of the body iterator -/
+def endOf (e : End) : End :=
+  if Gen.C06.nextRefusesNonBytes && e == .nonBytes then .raised else e
 
 /-! ### headers -/
 
@@ -1072,7 +1079,8 @@ def serve (pg : Pages) (rq : Req) (p : Plan) (cache : Option Cache) : Obs × Opt
   let r := s.r
   let code := r.status.getD 200
   let chunks := if rq.method = .head then [] else r.body.chunks
-  let (d, e) := deliver chunks
+  let (d, e0) := deliver chunks
+  let e := endOf e0
   if e = .raised ∧ d.isEmpty then
     (⟨500, some (.nat pg.bare.length), some (.ctype .textPlain none), false, pg.bare, .clean, r.stream,
       cached, .bare, false⟩, s.cache)
